@@ -30,7 +30,7 @@ def gen_case(g):
     W = W * (sigma / s)
     scale = g.choice([1.0, 10.0, 1e3, 1e6])
     c = {"kind": "c15", "n": n, "m": m, "act": act, "lr": g.choice([1.0, 0.5, 0.25, 0.9, 0.1]),
-         "fmt": g.choice(["dense", "csr"]), "W": W.tolist(), "sigma_target": sigma,
+         "fmt": g.choice(["dense", "csr", "coo", "csc"]), "W": W.tolist(), "sigma_target": sigma,
          "Win": (rng.normal(size=(n, m)) * g.choice([1.0, 5.0])).tolist(), "bias": rng.normal(size=n).tolist(),
          "U": (rng.normal(size=(T, m)) * scale).tolist(),
          "x0": (rng.uniform(-1, 1, size=n)).tolist(), "y0": (rng.uniform(-1, 1, size=n)).tolist(),
@@ -48,19 +48,33 @@ def gen_case(g):
     if g.chance(0.3):
         c["lr_first"] = g.choice([v for v in (1.0, 0.5, 0.25, 0.9, 0.1) if v != c["lr"]])
         c["lr_via"] = g.choice(["set_param", "hypers", "attr"])
+    if c.get("dtype") != "float32" and g.chance(0.3):
+        # the reservoir is first used with ANOTHER recurrent matrix (gain 0.99), which is then replaced through the parameter
+        # interface: the dynamics - and the contraction factor - must be those of the matrix the node holds now
+        c["W_swap"] = g.choice(["set_param", "attr"])
+    if c.get("dtype") != "float32" and g.chance(0.25):
+        # integer-typed input arrays (counts, quantised signals)
+        c["udtype"] = g.choice(["int64", "int32"])
+        c["U"] = np.round(np.clip(np.array(c["U"]) * (1.0 if scale > 1 else 4.0), -2 ** 30, 2 ** 30)).tolist()
     if act != "tanh" and g.chance(0.5):
         c["x0"] = (rng.normal(size=n) * 5).tolist()
         c["y0"] = (rng.normal(size=n) * 5).tolist()
     return c
 
 
+def as_fmt(c, W):
+    from scipy import sparse
+    return {"dense": lambda w: w, "csr": sparse.csr_matrix, "coo": sparse.coo_matrix, "csc": sparse.csc_matrix}[c["fmt"]](W)
+
+
 def build(c):
     from reservoirpy.nodes import Reservoir
-    from scipy import sparse
     n, m = c["n"], c["m"]
     W = np.array(c["W"]).reshape(n, n)
+    if c.get("W_swap"):
+        W = W.T * (0.99 / float(np.linalg.svd(W, compute_uv=False)[0]))
     kw = {"dtype": np.float32} if c.get("dtype") == "float32" else {}
-    return Reservoir(W=sparse.csr_matrix(W) if c["fmt"] == "csr" else W, Win=np.array(c["Win"]).reshape(n, m),
+    return Reservoir(W=as_fmt(c, W), Win=np.array(c["Win"]).reshape(n, m),
                      bias=np.array(c["bias"]).reshape(n, 1), lr=c["lr"], activation=c["act"], **kw)
 
 
@@ -68,11 +82,22 @@ class CallerArrayChanged(Exception):
     pass
 
 
+class ReturnedRowsDiffer(Exception):
+    pass
+
+
 def run_from(c, x0):
     r = build(c)
-    U = np.array(c["U"]).reshape(len(c["U"]), c["m"])
+    U = np.array(c["U"]).reshape(len(c["U"]), c["m"]).astype(np.dtype(c.get("udtype", "float64")))
     r.initialize(U[:1])
     lr = c["lr"]
+    if c.get("W_swap"):
+        r.run(U[:2])
+        Wnew = as_fmt(c, np.array(c["W"]).reshape(c["n"], c["n"]))
+        if c["W_swap"] == "attr":
+            r.W = Wnew
+        else:
+            r.set_param("W", Wnew)
     if c.get("lr_first") is not None:
         # the reservoir is used with another leak rate first, then the rate is changed through the
         # parameter interface: the dynamics must follow the new value
@@ -105,6 +130,10 @@ def run_from(c, x0):
         out = np.array(r.run(U), dtype=float)
     if not np.array_equal(mine, keep):
         raise CallerArrayChanged(f"the array handed over as initial state ({c['mode']}) was overwritten by the reservoir")
+    # (a float32 reservoir stores its state rounded to single precision and returns the unrounded rows: not compared)
+    if len(out) and c.get("dtype") != "float32" and not np.array_equal(out[-1], np.asarray(r.state(), dtype=float).reshape(-1), equal_nan=True):
+        raise ReturnedRowsDiffer(f"the last state returned ({out[-1].tolist()}) is not the state the node holds ({np.asarray(r.state()).reshape(-1).tolist()}): "
+                                 "the returned trajectory is not the reservoir's")
     return out
 
 
@@ -125,6 +154,8 @@ def check_cases(ctx, cases):
         ctx.count(c, nontrivial=len(c["U"]) >= 3, obligation=ob)
         ctx.stat(f"act={c['act']} lr={c['lr']} sigma={c['sigma_target']} fmt={c['fmt']} mode={c['mode']}")
         ctx.stat(f"lr_change={c.get('lr_via')}")
+        ctx.stat(f"W replaced after first use: {c.get('W_swap')}")
+        ctx.stat(f"input dtype={c.get('udtype', 'float64')}")
         ctx.sample({k: c[k] for k in ("n", "m", "act", "lr", "sigma_target", "fmt", "mode")} | {"T": len(c["U"])})
         if r[0] != "ok":
             ctx.violation(f"Reservoir.run raised {r[1]}" + (" - the caller's state array was modified by the reservoir, so distances between the "
@@ -158,6 +189,23 @@ def check_cases(ctx, cases):
             continue
         if c["act"] == "tanh" and max(abs(v) for v in c["x0"]) <= 1 and float(np.max(np.abs(X))) > 1 + 1e-12:
             ctx.violation(f"a tanh reservoir left the box [-1,1]^n: max |state| = {float(np.max(np.abs(X)))!r}", c, obligation=ob)
+            continue
+        # the trajectory is the update law with the matrices the node holds NOW (numpy, independent of the model): the
+        # contraction factor above is computed from them
+        f = {"tanh": np.tanh, "relu": lambda v: np.maximum(v, 0.0), "identity": lambda v: v}[c["act"]]
+        Win_, b_, U_ = np.array(c["Win"]).reshape(c["n"], c["m"]), np.array(c["bias"]), np.array(c["U"]).reshape(len(c["U"]), c["m"])
+        prev, law_bad = np.array(c["x0"], dtype=float), None
+        for t in range(len(X)):
+            want = (1 - c["lr"]) * prev + c["lr"] * f(W @ prev + Win_ @ U_[t] + b_)
+            if not np.allclose(X[t], want, rtol=1e-9, atol=1e-9 * max(1.0, float(np.max(np.abs(want))))):
+                law_bad = (t, want, X[t])
+                break
+            prev = X[t]
+        if law_bad:
+            ctx.violation(f"step {law_bad[0]} of the run is not (1-lr)*x + lr*f(W x + Win u + b) with the recurrent matrix the node holds"
+                          + (f" (W was replaced through {c['W_swap']} after the first use)" if c.get("W_swap") else "")
+                          + ": the contraction factor of that matrix says nothing about this trajectory", c,
+                          expected=law_bad[1].tolist(), observed=law_bad[2].tolist(), obligation=ob)
             continue
         # tie to the model definition
         if mo[0] != "ok":
